@@ -1887,7 +1887,10 @@ def semantic_lints(ctx, funcs, mods, rule):
         for st in walk_stmts(f.node.body):
             if isinstance(st, ast.Assign) and len(st.targets) == 1 and isinstance(st.targets[0], ast.Name) and isinstance(st.value, ast.Call) and isinstance(st.value.func, ast.Attribute) and st.value.func.attr in ("rstrip", "strip") and not st.value.args and norm(st.value.func.value) == st.targets[0].id:
                 x = st.targets[0].id
-                if any(isinstance(c, ast.Call) and isinstance(c.func, ast.Attribute) and c.func.attr == "decode" and norm(c.func.value) == x and f.before(st, c) for c in own):
+                # (the decode must come after the strip on the same path: in a later statement of the block the strip is in)
+                blk = next((l_ for p_ in ast.walk(f.node) for fld_ in ("body", "orelse", "finalbody") for l_ in [getattr(p_, fld_, None)] if isinstance(l_, list) and any(y_ is st for y_ in l_)), None)
+                later = blk[next(i_ for i_, y_ in enumerate(blk) if y_ is st) + 1 :] if blk else []
+                if any(isinstance(c, ast.Call) and isinstance(c.func, ast.Attribute) and c.func.attr == "decode" and norm(c.func.value) == x for l_ in later for c in ast.walk(l_)):
                     n += 1
                     ctx.violated(rule, f.where(st), f"`{norm(st)}` strips `{x}` before it is decoded: on bytes only ASCII white space goes, on text every Unicode space (NBSP, U+0085, 0x1c-0x1f) — the same line is cut differently depending on whether the file was compressed", key_of(f, f"strip-before-decode:{x}"))
         # (j)
